@@ -5,7 +5,7 @@
 From Coq Require Import QArith Qabs Reals Qreals.
 From EsVerif.Common Require Import Base.
 From EsVerif.C18 Require Import Model Spec QLemmas MomProofs MedianProofs ClipProofs InterpProofs CorProofs SpecTol TolProofs SpecStrict ClipStrict ClipReal GsProofs BoxProofs Gen GenProofs
-  TolSound ModelKw KwProofs RealReading FrameProofs Exec ExecProofs.
+  TolSound ModelKw KwProofs RealReading FrameProofs UndefModel UndefProofs Exec ExecProofs.
 Open Scope Q_scope.
 
 (* ------------------------------------------------------------------ weighted moments *)
@@ -710,4 +710,52 @@ Proof.
   split; [vm_compute; reflexivity|]. split; [vm_compute; reflexivity|].
   split; [simpl; repeat split; reflexivity|]. split; [vm_compute; reflexivity|].
   split; [vm_compute; reflexivity|vm_compute; reflexivity].
+Qed.
+
+(* ================================================================== statistics that do not exist *)
+(* Model.v totalises x/0 = 0; a subset whose total weight is zero has NO weighted mean / deviation / error
+   (the code returns nan).  UndefModel.sigma_clip_u makes this explicit.  A defined outcome is the outcome of
+   Model.sigma_clip, and then the initial subset and every later subset whose statistics were used had a
+   non-zero total weight — so the theorems above are not true "for the wrong reason" on it ... *)
+Theorem C18_sigma_clip_defined : forall x w niter nsig r,
+  0 <= nsig -> length (sc_weights x w) = length x ->
+  sigma_clip_u x w (Z.to_nat niter) nsig = ScOk r ->
+  sigma_clip (V1 x) (match w with Some l => Some (V1 l) | None => None end) niter nsig = Ok r
+  /\ stats_defined (sc_weighted w) (index_from 0%Z x (sc_weights x w)) = true
+  /\ exists k, (k <= Z.to_nat niter)%nat
+       /\ sc_idx r = map p_idx (iterate (clip_step (sc_weighted w) nsig) k (index_from 0%Z x (sc_weights x w)))
+       /\ forall j, (j <= k)%nat ->
+            stats_defined (sc_weighted w) (iterate (clip_step (sc_weighted w) nsig) j (index_from 0%Z x (sc_weights x w))) = true.
+Proof. exact sigma_clip_u_ok. Qed.
+
+(* ... and an undefined outcome reports the index set of the first iterate of the discard rule that has no
+   statistics; every earlier iterate had them (the index set is still determined by the rule; the iteration has
+   no defined continuation) *)
+Theorem C18_sigma_clip_undefined : forall x w niter nsig idx,
+  0 <= nsig ->
+  sigma_clip_u x w niter nsig = ScUndef idx ->
+  let all := index_from 0%Z x (sc_weights x w) in
+  let wtd := sc_weighted w in
+  exists k, (k <= niter)%nat
+    /\ idx = map p_idx (iterate (clip_step wtd nsig) k all)
+    /\ stats_defined wtd (iterate (clip_step wtd nsig) k all) = false
+    /\ forall j, (j < k)%nat -> stats_defined wtd (iterate (clip_step wtd nsig) j all) = true.
+Proof. exact sigma_clip_u_undef. Qed.
+
+Example C18_nonvacuous_undefined :
+  (* the survivors of the first round (4 and 6) both have weight zero *)
+  sigma_clip_u [0; 4; 6; 10] (Some [1; 0; 0; 1]) 4 (1 # 2) = ScUndef [1; 2]%Z
+  (* with niter = 0 that round is never made: defined *)
+  /\ (exists r, sigma_clip_u [0; 4; 6; 10] (Some [1; 0; 0; 1]) 0 (1 # 2) = ScOk r /\ sc_idx r = [0; 1; 2; 3]%Z)
+  (* all weights zero: undefined from the start *)
+  /\ sigma_clip_u [1; 2; 3] (Some [0; 0; 0]) 4 3 = ScUndef [0; 1; 2]%Z
+  (* the verdicts: nan with these indices is "undefined statistics" (-2), nan with other indices or finite numbers are 3 *)
+  /\ v_sigma_clip_undef false [0; 4; 6; 10] (Some [1; 0; 0; 1]) 4 (1 # 2) [1; 2]%Z = undef
+  /\ v_sigma_clip_undef false [0; 4; 6; 10] (Some [1; 0; 0; 1]) 4 (1 # 2) [0; 3]%Z = 3%Z
+  /\ sc_guard [0; 4; 6; 10] (Some [1; 0; 0; 1]) 4 (1 # 2) 0%Z = 3%Z
+  /\ wmom_undef_cols (M2 [[3; 1]; [4; 2]]) (M2 [[1; 0]; [2; 0]]) = [false; true].
+Proof.
+  split; [vm_compute; reflexivity|]. split; [eexists; split; vm_compute; reflexivity|].
+  split; [vm_compute; reflexivity|]. split; [vm_compute; reflexivity|]. split; [vm_compute; reflexivity|].
+  split; vm_compute; reflexivity.
 Qed.
